@@ -229,7 +229,21 @@ func (g *gen) pairCase(z ZoneSpec, z2 ZoneSpec) Case {
 	sd, ns := g.tod()
 	t1 := mkTime(z, day, sd, ns)
 	var t2 time.Time
-	switch r.Intn(10) {
+	switch r.Intn(11) {
+	case 10: // both ends of ONE civil day — on a 25-hour (fall-back) day of the zone, if it has one nearby, they are more
+		// than 24 h apart and still the same day
+		d := day
+		for k := int64(0); k < 400; k++ {
+			if mkTime(z, d+k+1, 0, 0).Sub(mkTime(z, d+k, 0, 0)) > 24*time.Hour {
+				d, cls = d+k, "long-day"
+				break
+			}
+		}
+		t1 = mkTime(z, d, 0, 0).Add(time.Duration(r.Range(0, 3599)) * time.Second)
+		t2 = mkTime(z, d+1, 0, 0).Add(-time.Duration(r.Range(1, 3599)) * time.Second)
+		if r.Bool() {
+			t1, t2 = t2, t1
+		}
 	case 0:
 		t2 = t1
 	case 1:
